@@ -646,6 +646,17 @@ def _summarise_array(sid, shape, dt, idx, prev, postv, iz, lo, hi, hv_consts, hv
                         return ite(sv.wrap(z3.simplify(c)), v, lambda: pre_fn(ix))
                     return Content("arr", A._memo(fn), meta)
                 return at
+            if not _mentions(z3.simplify(cond), iz):
+                # (2b) store into a loop-invariant position: A[g] = e(i), g independent of i -> the element keeps the value
+                #      of the last iteration (last-value form of an array element); checked by loop-step / loop-init
+                def at(k):
+                    def fn(ix, k=k):
+                        pairs = [(a, sv.znum(b)) for a, b in zip(idz, ix)]
+                        c = z3.And(z3.substitute(cond, *pairs), sv.znum(k) > sv.znum(lo))
+                        v = _subst_val(_subst_val(val, [(iz, sv.znum(A.simp(sv.sub(k, 1))))]), pairs)
+                        return ite(sv.wrap(z3.simplify(c)), v, lambda: pre_fn(ix))
+                    return Content("arr", A._memo(fn), meta)
+                return at
     raise EngineError(f"array #{sid}: loop effect is neither an accumulation nor an affine scatter store — needs a written summary")
 
 
